@@ -409,6 +409,11 @@ func ParseContractLines(pkg, path string, lines []rawLine) *ContractFile {
 				errf(d.loc, "bad guarded")
 				continue
 			}
+			if f[0] == "global" && len(f) >= 4 && f[2] == "by" {
+				// guarded global x by l
+				cf.Guarded = append(cf.Guarded, &GuardedDecl{Type: "global", Field: f[1], Lock: f[3], Mode: "lock", Pkg: pkg, Line: d.loc})
+				continue
+			}
 			dot := strings.LastIndex(f[0], ".")
 			g := &GuardedDecl{Type: f[0][:dot], Field: f[0][dot+1:], Pkg: pkg, Line: d.loc}
 			if f[1] == "by" && len(f) >= 3 {
